@@ -2,7 +2,7 @@
 """Self-validation of the monitors: apply each property-breaking change, run the
 quick check(s) that should notice, expect exit 1 + a VIOLATION line, undo the change.
 
-  selftest/run.py [--sandbox DIR] [--only m01,m17] [--with-tests] [--patches DIR] [--match r4seed] [--no-mutants] [--seeds 1,2,3]
+  selftest/run.py (--sandbox DIR | --in-place) [--only m01,m17] [--with-tests] [--patches DIR] [--match r4seed] [--no-mutants] [--seeds 1,2,3]
 
 Without --sandbox the change is applied to /repo itself (git -C /repo checkout -- . afterwards;
 /repo must be clean). With --sandbox DIR a scratch git worktree of /repo (DIR/repo) and a copy of
@@ -72,6 +72,7 @@ def main():
     seeds = ["1"]
     match = None
     no_mutants = False
+    in_place = False
     i = 0
     while i < len(args):
         if args[i] == "--sandbox":
@@ -95,11 +96,19 @@ def main():
         elif args[i] == "--seeds":
             seeds = args[i + 1].split(",")
             i += 2
-        else:
+        elif args[i] == "--in-place":
+            in_place = True
             i += 1
+        else:
+            # unknown arguments (including --help) never start a run: without --sandbox a run edits /repo itself
+            print(__doc__)
+            sys.exit(2)
     if sandbox:
         repo, verif = setup_sandbox(sandbox)
     else:
+        if not in_place:
+            print("refusing: pass --sandbox DIR, or --in-place to apply the changes to /repo itself")
+            sys.exit(2)
         repo, verif = "/repo", VERIF
         rc, out = sh(["git", "-C", repo, "status", "--porcelain"])
         if out.strip():
